@@ -114,10 +114,53 @@ POOL = [
 ]
 
 
+# calls that take the root as a directory descriptor: only used by the residual-state check (not in the sequence pool)
+DIRFD_TUPLES = [('glob.dirfd', '**/*.txt', 'GLOBSTAR', 't1'), ('glob.dirfd', '*/*', '', 't2'), ('glob.dirfd', '**', 'GLOBSTAR|FOLLOW', 't1'),
+                ('globmatch.dirfd', '**/f', 'GLOBSTAR|REALPATH', ('t2', 'a/b/f')), ('glob.dirfd', b'**/*.txt', 'GLOBSTAR', 't1')]
+
+
+def _nfds():
+    return len(os.listdir('/proc/self/fd'))
+
+
+def check_residual_state(res):
+    """Inductive invariant behind "the same after any sequence of other calls": a call leaves no operating-system
+    state behind - the number of open descriptors after every call equals the number before it (so no history of
+    any length can exhaust the table), and repeating the call gives the same value."""
+    for t in [x for x in POOL if x[0] != 'FLOOD'] + DIRFD_TUPLES:
+        execute(t)     # first use may legitimately open long-lived things (module imports)
+        n0 = _nfds()
+        vals = []
+        for rep in range(3):
+            vals.append(run.jsonable(execute(t)))
+            n1 = _nfds()
+            res.n['evaluations'] += 1
+            res.n['distinct_nontrivial'] += 1
+            if n1 != n0:
+                res.outcomes.add('descriptor-leak')
+                res.add_violation(ID, run.viol('residual-state', {'call': run.jsonable(list(t)), 'repetition': rep + 1},
+                                               {'descriptors_left_open': 0}, {'descriptors_left_open': n1 - n0}))
+                break
+        else:
+            res.outcomes.add('no-residue')
+            if vals[0] != vals[1] or vals[1] != vals[2]:
+                res.add_violation(ID, run.viol('history-dependence', {'sequence': [run.jsonable(list(t))] * 3}, vals[0], vals[2]))
+
+
 def execute(t):
     """Run one call tuple; the value is JSON-able and deterministic."""
     kind, patt, fs, arg = t
     try:
+        if kind in ('glob.dirfd', 'globmatch.dirfd'):
+            tree, name = (arg, None) if kind == 'glob.dirfd' else arg
+            r = roots()[tree]
+            fd = os.open(r, os.O_RDONLY | os.O_DIRECTORY)
+            try:
+                if kind == 'glob.dirfd':
+                    return run.jsonable(sorted(G.glob(patt, flags=_fl(G, fs), dir_fd=fd)))
+                return G.globmatch(name, patt, flags=_fl(G, fs), dir_fd=fd)
+            finally:
+                os.close(fd)
         if kind == 'fnmatch':
             return F.fnmatch(arg, patt, flags=_fl(F, fs))
         if kind == 'fn.translate':
@@ -486,6 +529,7 @@ def plan(tier, seed):
     for sh in range(8):
         chunks.append(('objects', sh, 8))
     chunks.append(('fresh',))
+    chunks.append(('residue',))
     return {
         'chunks': chunks,
         'coverage': {'pool': [list(run.jsonable(list(t))) for t in POOL], 'sequence_depth': depth, 'configs': len(CONFIGS),
@@ -518,6 +562,9 @@ def run_chunk(chunk):
         elif kind == 'objects':
             check_objects(chunk[1], chunk[2], res)
             res.samples.append({'config': list(CONFIGS[3])})
+        elif kind == 'residue':
+            check_residual_state(res)
+            res.samples.append({'residual_state': list(run.jsonable(list(DIRFD_TUPLES[0])))})
         else:
             fresh_interpreter_values(res, want)
     finally:
@@ -549,6 +596,11 @@ def replay(v):
             want = [fresh_value([tid(t) for t in POOL].index(tid(t))) for t in calls]
             vals, cnt = run_schedule(calls, inp.get('first', 0), inp.get('preempt_at'), inp.get('granularity', 'call'))
             return {'violates': vals != want, 'observed': vals}
+        if k == 'residual-state':
+            r = run.ChunkResult()
+            check_residual_state(r)
+            hit = [x for x in r.viol if x['kind'] == k and run.jsonable(x['input']['call']) == run.jsonable(inp['call'])]
+            return {'violates': bool(hit), 'observed': hit[0]['observed'] if hit else 'ok'}
         if k == 'fresh-interpreter-differs':
             r = run.ChunkResult()
             fresh_interpreter_values(r, clean_values())
